@@ -21,12 +21,14 @@ func init() {
 			"only on the branch where no epoch start is pending (!isEpochStart) and the start condition - which depends on the normal (strict `>` against currEpochStartRound+roundsPerEpoch) and the forced trigger - " +
 			"holds; on the same branch isEpochStart is set and currEpochStartRound becomes the current round. " +
 			"After every assignment of the forced round in ForceEpochStart every exit lies behind the minimum test, the clamp or the disabling store; the forced round is cleared on every path from the epoch increment to the return of Update. " +
+			"trigger.revert restores the epoch from the reverted header, not from the trigger's own epoch field. " +
 			"Not decided (value-level): the arithmetic relation between consecutive start rounds over round sequences with gaps.",
 		Run: runC34,
 	})
 }
 
 func runC34(c *core.Ctx) {
+	c34RevertRestoresFromTheRevertedBlock(c)
 	const pkg = "epochStart/metachain"
 	// ---- S1
 	nf := 0
@@ -248,4 +250,60 @@ func isRecvFieldAddr(fn *ssa.Function, addr ssa.Value, name string) bool {
 	f := core.FieldOfAddr(fa)
 	r := receiverOf(fn)
 	return f != nil && f.Name() == name && r != nil && rootBase(fa.X) == ssa.Value(r)
+}
+
+// c34RevertRestoresFromTheRevertedBlock: rolling back an epoch-start block puts the trigger back
+// into the epoch before THAT block: the epoch stored by trigger.revert is computed from the reverted
+// header's epoch, never from the trigger's own epoch field - which has already moved on when the
+// trigger fired for the next epoch without that block being committed; the epoch would then advance
+// by two relative to the last committed epoch start.
+func c34RevertRestoresFromTheRevertedBlock(c *core.Ctx) {
+	fn := anchorM(c, "epochStart/metachain", "trigger", "revert")
+	if fn == nil {
+		return
+	}
+	n := 0
+	core.Instrs(fn, func(in ssa.Instruction) {
+		st, ok := in.(*ssa.Store)
+		if !ok {
+			return
+		}
+		fa, ok := st.Addr.(*ssa.FieldAddr)
+		if !ok || core.FieldOfAddr(fa).Name() != "epoch" || fa.X != ssa.Value(fn.Params[0]) {
+			return
+		}
+		n++
+		fromHeader, fromSelf := false, false
+		seen := map[ssa.Value]bool{}
+		var walk func(v ssa.Value, d int)
+		walk = func(v ssa.Value, d int) {
+			if v == nil || seen[v] || d > 8 {
+				return
+			}
+			seen[v] = true
+			if base, f := core.FieldLoad(v); f != nil {
+				if f.Name() == "epoch" && base == ssa.Value(fn.Params[0]) {
+					fromSelf = true
+				}
+				if f.Name() == "Epoch" {
+					fromHeader = true
+				}
+			}
+			if call, isCall := v.(*ssa.Call); isCall && call.Call.IsInvoke() && call.Call.Method.Name() == "GetEpoch" {
+				fromHeader = true
+			}
+			if vi, isI := v.(ssa.Instruction); isI {
+				for _, op := range vi.Operands(nil) {
+					if op != nil {
+						walk(*op, d+1)
+					}
+				}
+			}
+		}
+		walk(st.Val, 0)
+		c.Check(fromHeader && !fromSelf, "C34/revert-restores-from-the-reverted-block", fmt.Sprintf("trigger.revert/epoch#%d", n), st.Pos(),
+			"the restored epoch is computed from the reverted header's epoch",
+			"trigger.revert restores the epoch from the trigger's own epoch field instead of the reverted header's: after the trigger fired for the next epoch without a commit, a rollback leaves it one epoch ahead of the chain and the next start advances the epoch by two")
+	})
+	c.Floor("C34/revert-restores-from-the-reverted-block", 1)
 }
